@@ -155,7 +155,7 @@ class Gen:
             else: lex = [('kw', form)]
             return lex, T('Boolean', N('BooleanLiteral', ('value', A('True' if val else 'False'))))
         if k in ('str', 'wstr'):
-            body = rng.choice(['abc', '', 'a b', 'x$Ny', 'q(* no comment *)', 'it"s' if k == 'str' else "it's"])
+            body = rng.choice(['abc', '', 'a b', 'x$Ny', 'q(* no comment *)', 'it"s' if k == 'str' else "it's", '"q"' if k == 'str' else "'q'", '"' if k == 'str' else "'"])
             q = "'" if k == 'str' else '"'
             pre = []
             if rng.random() < 0.3: pre = [('kw', 'STRING' if k == 'str' else 'WSTRING'), ('p', '#')]
